@@ -371,6 +371,10 @@ def toast_pixel_for_point(depth, lat, lon, coordsys=ToastCoordinateSystem.ASTRON
     # that is closest to the input position.
 
     lons, lats = toast_tile_get_coords(tile)
+
+    # The pixel longitudes can be on any 2pi branch; move them onto the branch
+    # nearest to the input longitude before comparing and fitting.
+    lons = lon + (lons - lon + np.pi) % TWOPI - np.pi
     dist2 = (lons - lon) ** 2 + (lats - lat) ** 2
     min_y, min_x = np.unravel_index(np.argmin(dist2), (256, 256))
 
